@@ -60,6 +60,8 @@ inductive LifeAct where
   | open_ (tls : Bool) (id : String)        -- connect, one session, stay connected
   | cclose (id : String) | rst (id : String) | half (id : String) | quit (id : String) | bad (id : String)
   | unread (id : String)                    -- pipelines requests and goes away without reading the replies
+  | halfcr (id : String) | halfbulk (id : String)   -- goes away between CR and LF of a header / inside a bulk payload
+  | stallreq (id : String)                  -- sends part of a request and stays connected
   | alive (id : String) | cmd (id : String)
   | tlsbad (kind : String) (id : String)    -- a faulty client on the TLS port
   | obs
@@ -91,6 +93,9 @@ def lifeStepA (cfg : LifeCfg) (s : LifeSt) : LifeAct → String × LifeSt
   | .rst id => ("ok", s.drop id)
   | .half id => ("ok", s.drop id)
   | .unread id => ("ok", s.drop id)
+  | .halfcr id => ("ok", s.drop id)
+  | .halfbulk id => ("ok", s.drop id)
+  | .stallreq _ => ("ok", s)
   | .quit id => (if s.has id then "+OK/down" else "gone/down", s.drop id)
   | .bad id => ("down", s.drop id)
   | .alive id => (if s.has id then "up" else "down", s)
@@ -118,6 +123,9 @@ def parseLifeAct (action : String) : Option LifeAct :=
   | ["rst", id] => some (.rst id)
   | ["half", id] => some (.half id)
   | ["unread", id] => some (.unread id)
+  | ["halfcr", id] => some (.halfcr id)
+  | ["halfbulk", id] => some (.halfbulk id)
+  | ["stallreq", id] => some (.stallreq id)
   | ["quit", id] => some (.quit id)
   | ["bad", id] => some (.bad id)
   | ["alive", id] => some (.alive id)
